@@ -59,6 +59,9 @@ type Property struct {
 	Rule   string // how cases are generated and what makes one non-trivial
 	Gen    func(r *RNG, tier string) []Case
 	Replay func(line string) []Case // rebuild a case from a replay line
+	// Chunks, when set, replaces Gen for the thorough tier: generators run one after the other so that an
+	// exhaustive domain never sits in memory at once.
+	Chunks func(r *RNG, tier string) []func() []Case
 	// Extra runs non-case-based checks (stream-level scenarios); it reports through the collector.
 	Extra func(c *Collector, r *RNG, tier string)
 }
@@ -310,16 +313,30 @@ func main() {
 	// corpus first (minimised past failures), then generated cases
 	runCorpus(p, col, drv)
 	effTier := *tier
+	searchSeeds := 1
 	if proof.Broken != "" {
-		// DESIGN §5: a broken proof / tie triggers the search with the thorough budget
-		effTier = "thorough"
+		// DESIGN §5: a broken proof / tie triggers a search for a failing input: the quick generators are re-run
+		// under several seeds (the thorough tier's exhaustive domains are too slow to be a per-change reaction)
+		searchSeeds = 4
 	}
-	if p.Gen != nil {
-		cases := p.Gen(rng, effTier)
-		runCases(col, drv, cases)
-	}
-	if p.Extra != nil {
-		p.Extra(col, rng, effTier)
+	for k := 0; k < searchSeeds; k++ {
+		r := rng
+		if k > 0 {
+			r = NewRNG(uint64(seed) + uint64(k)*7919)
+		}
+		if p.Chunks != nil && effTier == "thorough" {
+			for _, ch := range p.Chunks(r, effTier) {
+				runCases(col, drv, ch())
+			}
+		} else if p.Gen != nil {
+			runCases(col, drv, p.Gen(r, effTier))
+		}
+		if p.Extra != nil {
+			p.Extra(col, r, effTier)
+		}
+		if len(col.oracleFail) > 0 {
+			break
+		}
 	}
 	wall := time.Since(start).Seconds()
 	os.Exit(verdict(p, col, proof, *tier, seed, wall))
